@@ -909,7 +909,7 @@ class ArmV6:
                     hintsattrs = self.convert_attrs_hints(self.registers.htcr.irgn0)
                     walkaddr.memattrs.innerhints = substring(hintsattrs, 3, 2)
                     walkaddr.memattrs.innerattrs = substring(hintsattrs, 1, 0)
-                    hintsattrs = self.convert_attrs_hints(self.registers.htcr.rgn0)
+                    hintsattrs = self.convert_attrs_hints(self.registers.htcr.orgn0)
                     walkaddr.memattrs.outerhints = substring(hintsattrs, 3, 2)
                     walkaddr.memattrs.outerattrs = substring(hintsattrs, 1, 0)
                     walkaddr.memattrs.shareable = bit_at(self.registers.htcr.sh0, 1) == 0b1
